@@ -1,6 +1,26 @@
-/-! Driver entry for property C06 (stub: not implemented yet). -/
+import HeartwoodModel.Model.ChangeGraph
+import HeartwoodModel.Driver.Util
+import HeartwoodModel.Driver.C05
+/-! Driver entry for C06. Case: `<changes> <tips> ord=<ranks>` (syntax of `Driver/C05.lean`, one tip
+set). Output: `<evaluation of the whole history>=><evaluation of the surviving history on its own>`
+(the second is `-` when the first is not an object). The surviving history is loaded through the tips
+of the pruned graph, as the harness does with the real code. -/
 namespace HeartwoodModel.Driver.C06
+open HeartwoodModel.Dag HeartwoodModel.ChangeGraph HeartwoodModel.Driver.Util HeartwoodModel.Driver.C05
 
-def run (_args : List String) : String := "unimplemented"
+def run (args : List String) : String :=
+  match args with
+  | [changes, tips, ord] =>
+    match parseCase changes ord, parseRefs tips ',' with
+    | some c, some tips =>
+      let full := evalTips c (issueApply c) tips
+      let first := showOut (showIssue c) full
+      match full with
+      | some (some (.ok _ g')) =>
+        let tips' := sortNat (g'.tipsOf.filterMap c.idxOf)
+        first ++ "=>" ++ showOut (showIssue c) (evalTips c (issueApply c) (tips'.map some))
+      | _ => first ++ "=>-"
+    | _, _ => "bad-op"
+  | _ => "bad-op"
 
 end HeartwoodModel.Driver.C06
